@@ -138,6 +138,16 @@ CHECKS = {
                      'repr, latin-1, base64) over generated histories with authentication failures, error replies, NEWSA refusals, '
                      'corrupted and hostile input; the DEBUG stream must contain them (monitor not blind).',
                 note='secrets shorter than 8 octets are not searched; stderr tracebacks are not log records'),
+    'C18': dict(level='exploration', design='3 C18',
+                technique='enumeration of (threshold, half-open count, cookie variant) with reference-encoded IKE_SA_INIT requests '
+                          '(own EC key pair from the reference group arithmetic) plus Hypothesis sampling beyond; oracle = reference '
+                          'decoding of the reply, recomputed HMAC-SHA256 cookie, DH-creation recorder, snapshot equality; initiator '
+                          'retries compared with the original request by the reference decoder',
+                text='Over the threshold and without a valid cookie: exactly one COOKIE notify, no DH object, nothing left behind; '
+                     'cookie = HMAC-SHA256(secret, SPIi|Ni|address) and is refused when corrupted, truncated, empty, extended, replayed '
+                     'with another SPI / nonce / address or after a restart; initiator retries = same request with the newest '
+                     'cookie first, ID 0, and complete, also after repeated challenges and an INVALID_KE_PAYLOAD round.',
+                note='behaviour at exactly the threshold and acceptance with two cookies are not asserted'),
 }
 
 NOT_YET = 'check not built yet in this session (planned, see DESIGN.md section 8)'
